@@ -38,12 +38,16 @@ type lxBuild struct {
 	scoreNone bool
 	optOff    string
 	multi     bool
+	borrowed  bool // the readers belong to another build (same index searched with other options)
 	readers   []*bluge.Reader
 	closers   []func()
 	lays      []*sxALayout
 }
 
 func (b *lxBuild) close() {
+	if b.borrowed {
+		return
+	}
 	for _, r := range b.readers {
 		_ = r.Close()
 	}
@@ -89,12 +93,94 @@ func runLayout(o Opts) error {
 			c.Batches = append(c.Batches, []sOp{{Kind: 2, ID: 1}, {Kind: 2, ID: 2}})
 			c.Live = map[int]*sVersion{}
 		}
+		if ci%2 == 1 {
+			shareKeyword(r.rng, c)
+		}
 		if err := r.corpus(ci, c, nQueries); err != nil {
 			return err
 		}
 	}
+	r.w.OracleEval(1)
+	if r.w.Stats["layered_file_merge_reached"] == 0 {
+		r.w.OracleFail("merged-layout-not-reached", "the file merger never produced the merged first segment of the layered builds (harness, not a property violation): merged-then-fresh layouts by the file merger went unchecked",
+			map[string]interface{}{"seed": o.Seed})
+	}
 	r.w.Close()
 	return nil
+}
+
+// shareKeyword gives about half of the document versions one common keyword, so that the
+// layered builds can put exactly one of its documents into the merged segment.
+func shareKeyword(rng *rand.Rand, c *sCorpus) {
+	k := sKwPool[rng.Intn(len(sKwPool))]
+	for _, v := range c.Versions {
+		if rng.Intn(2) == 0 {
+			v.HasKw, v.Kw = true, k
+			v.analyse()
+		}
+	}
+}
+
+// layeredSplit: the live documents split into the part that goes into the merged segment (2-4
+// documents, exactly one of them with the most frequent keyword when at least three documents
+// carry it) and the rest (the fresh segments behind it).
+func layeredSplit(rng *rand.Rand, c *sCorpus) (first, rest []sOp) {
+	ids := c.liveIDs()
+	cnt := map[string]int{}
+	for _, id := range ids {
+		if v := c.Live[id]; v.HasKw {
+			cnt[v.Kw]++
+		}
+	}
+	best := ""
+	for _, id := range ids {
+		if v := c.Live[id]; v.HasKw && (best == "" || cnt[v.Kw] > cnt[best]) {
+			best = v.Kw
+		}
+	}
+	var with, without []int
+	for _, id := range ids {
+		if v := c.Live[id]; best != "" && v.HasKw && v.Kw == best {
+			with = append(with, id)
+		} else {
+			without = append(without, id)
+		}
+	}
+	rng.Shuffle(len(with), func(i, j int) { with[i], with[j] = with[j], with[i] })
+	rng.Shuffle(len(without), func(i, j int) { without[i], without[j] = without[j], without[i] })
+	var a []int
+	if len(with) >= 3 {
+		a = append(a, with[0])
+		with = with[1:]
+		n := 1 + rng.Intn(3)
+		for n > 0 && len(without) > 0 {
+			a = append(a, without[0])
+			without = without[1:]
+			n--
+		}
+	}
+	pool := append(with, without...)
+	rng.Shuffle(len(pool), func(i, j int) { pool[i], pool[j] = pool[j], pool[i] })
+	for len(a) < 2 && len(pool) > 1 {
+		a = append(a, pool[0])
+		pool = pool[1:]
+	}
+	rng.Shuffle(len(a), func(i, j int) { a[i], a[j] = a[j], a[i] })
+	for _, id := range a {
+		first = append(first, sOp{Kind: 0, V: c.Live[id], ID: id})
+	}
+	for _, id := range pool {
+		rest = append(rest, sOp{Kind: 0, V: c.Live[id], ID: id})
+	}
+	return first, rest
+}
+
+func splitBatches(rng *rand.Rand, ops []sOp) [][]sOp {
+	if len(ops) >= 2 && rng.Intn(2) == 0 {
+		cut := 1 + rng.Intn(len(ops)-1)
+		return [][]sOp{ops[:cut], ops[cut:]}
+	}
+	return [][]sOp{ops}
 }
 
 func (r *layoutRun) dir() string {
@@ -402,6 +488,85 @@ func (r *layoutRun) builds(c *sCorpus) ([]*lxBuild, error) {
 		}
 		out = append(out, b)
 	}
+	// 14./15. layered indexes: a MERGED segment first, fresh unmerged segments behind it; each
+	// searched with default scoring and with scoring "none" (the per-segment bitmap rewrites see
+	// segments that encode their postings differently: the merger writes a term of a single
+	// document as a 1-hit list, a fresh segment never does)
+	if n >= 3 {
+		twin := func(b *lxBuild) *lxBuild {
+			return &lxBuild{name: b.name + "-score-none", merging: b.merging, offline: b.offline, scoreNone: true, borrowed: true, readers: b.readers}
+		}
+		// 14. offline writer (one batch per document, merged at Close), then a writer on the same directory
+		{
+			first, rest := layeredSplit(r.rng, c)
+			dir := r.dir()
+			ow, err := bluge.OpenOfflineWriter(bluge.DefaultConfig(dir), 0, 2+r.rng.Intn(3))
+			if err != nil {
+				return fail(err)
+			}
+			for _, op := range first {
+				if err := ow.Insert(op.V.blugeDoc()); err != nil {
+					return fail(err)
+				}
+			}
+			if err := ow.Close(); err != nil {
+				return fail(fmt.Errorf("layered offline close: %w", err))
+			}
+			b = &lxBuild{name: "fs-offline-merged-then-batches", offline: len(first), merging: true}
+			if err := add(b, r.buildWriter(b.name, sxMergeFreeConfig(bluge.DefaultConfig(dir)), splitBatches(r.rng, rest), b)); err != nil {
+				return fail(err)
+			}
+			out = append(out, twin(b))
+		}
+		// 15. the file merger merges the first batches; writer closed, reopened merge-free, then the rest
+		{
+			first, rest := layeredSplit(r.rng, c)
+			dir := r.dir()
+			w, err := bluge.OpenWriter(sxSmallMergeConfig(bluge.DefaultConfig(dir)))
+			if err != nil {
+				return fail(err)
+			}
+			var fb [][]sOp
+			for _, op := range first {
+				fb = append(fb, []sOp{op})
+			}
+			if err := sxApplyBatches(w, fb); err != nil {
+				return fail(err)
+			}
+			deadline, lastNudge, merged := time.Now().Add(5*time.Second), time.Now(), false
+			for !merged && time.Now().Before(deadline) {
+				rd, err := w.Reader()
+				if err != nil {
+					return fail(err)
+				}
+				merged = len(rd.VerifSnapshot().Segments()) == 1
+				_ = rd.Close()
+				if !merged {
+					if time.Since(lastNudge) > 300*time.Millisecond {
+						// the merger sleeps until a persistence round ends after it registered its watcher
+						if err := w.Batch(bluge.NewBatch()); err != nil {
+							return fail(err)
+						}
+						lastNudge = time.Now()
+					}
+					time.Sleep(4 * time.Millisecond)
+				}
+			}
+			if err := w.Close(); err != nil {
+				return fail(fmt.Errorf("layered merge close: %w", err))
+			}
+			if merged {
+				r.w.Count("layered_file_merge_reached", 1)
+			} else {
+				r.w.Count("layered_file_merge_not_reached", 1)
+			}
+			b = &lxBuild{name: "fs-file-merged-then-batches", merging: true}
+			if err := add(b, r.buildWriter(b.name, sxMergeFreeConfig(bluge.DefaultConfig(dir)), splitBatches(r.rng, rest), b)); err != nil {
+				return fail(err)
+			}
+			out = append(out, twin(b))
+		}
+	}
 	return out, nil
 }
 
@@ -660,8 +825,15 @@ func (r *layoutRun) corpus(ci int, c *sCorpus, nQueries int) error {
 	nontrivial := false
 	nLive := len(c.Live)
 	env := &sxCoqEnv{c: c, lay: builds[0].lays[0]}
-	for qi := 0; qi < nQueries; qi++ {
-		q := sxGenQuery(r.rng, c, 1+r.rng.Intn(3))
+	targeted := sxTargetedQueries(c)
+	for qi := 0; qi < nQueries+len(targeted); qi++ {
+		var q *sxGq
+		if qi < nQueries {
+			q = sxGenQuery(r.rng, c, 1+r.rng.Intn(3))
+		} else {
+			q = targeted[qi-nQueries]
+			w.Count("queries_targeted_term_clauses", 1)
+		}
 		if _, blown := sxRangeCost(q); blown || sxFuzzyTranspositionSensitive(q, c) {
 			continue
 		}
